@@ -277,7 +277,13 @@ func checkC05(c *Ctx) error {
 			ops = append(ops, ind)
 		}
 		// every other configuration is spread over 2 or 4 files (scope, constructor and the rest of a service may sit in different files)
-		units = append(units, &probe.Unit{ID: idOf(i), Cfg: conf, Files: gen.Split(r, conf, i%4), Ops: ops})
+		u := &probe.Unit{ID: idOf(i), Cfg: conf, Files: gen.Split(r, conf, i%4), Ops: ops}
+		if i%5 == 4 {
+			// scope, constructor and decoys of one service in sibling directories read through one wildcard: which file wins is
+			// decided by the lexical order of the cleaned paths
+			u.Files, u.Patterns = gen.GlobLayout(r, conf)
+		}
+		units = append(units, u)
 	}
 	// a sample of the small graphs is executed as well (accepted ones only)
 	k := 0
